@@ -222,19 +222,21 @@ def joinNl : List Str → Str
   | [a] => a
   | a :: rest => a ++ (10 :: joinNl rest)
 
-/-- `_extract_comments` -/
+/-- the documentation lines one comment token contributes (`_extract_comments` loop body) -/
+def docLinesOf (mcRe : Re) (c : Tok) : List Str :=
+  let text := strToStr c.value
+  if c.type = "COMMENT_SINGLELINE" then
+    if startsWith text [47, 47, 47] || startsWith text [47, 47, 33] then [rstripNl text] else []
+  else
+    if startsWith text [47, 42, 42] || startsWith text [47, 42, 33] then
+      let text := replaceDblNl text
+      let text := subMulticomment mcRe (text.length + 1) text
+      splitLines text
+    else []
+
+/-- `_extract_comments`: every comment appends its lines, in order -/
 def extractComments (mcRe : Re) (comments : List Tok) : Option String :=
-  let step (acc : List Str) (c : Tok) : List Str :=
-    let text := strToStr c.value
-    if c.type = "COMMENT_SINGLELINE" then
-      if startsWith text [47, 47, 47] || startsWith text [47, 47, 33] then acc ++ [rstripNl text] else acc
-    else
-      if startsWith text [47, 42, 42] || startsWith text [47, 42, 33] then
-        let text := replaceDblNl text
-        let text := subMulticomment mcRe (text.length + 1) text
-        splitLines text
-      else acc
-  let lines := comments.foldl step []
+  let lines := comments.flatMap (docLinesOf mcRe)
   let s := joinNl lines
   if s.isEmpty then none else some (strOfStr s)
 
